@@ -964,6 +964,54 @@ CONFIG['C03'] = {'assumptions': ['strings.TrimSpace / ToLower are modelled on AS
                   'reflect.Value.FieldByName (exact name), CanInterface (exported), SetInt/SetUint/SetFloat after the Overflow* tests, reflect.New '
                   'for pointer fields']}
 
+CONFIG['C01'] = {'assumptions': ['every operation of the description has a handler registered under its method and its template as written (what generated servers '
+                 'do)',
+                 "path templates begin with '/' and their braces pair up into {name} placeholders with non-empty brace-free names; methods are the "
+                 'seven a swagger 2.0 path item knows (anything else is INVALID input: the description would silently lose the operation)',
+                 "two operations whose converted keys coincide under one method (e.g. /p/{a}.json and /p/{a}.xml) are resolved by Go's map iteration "
+                 'order: such descriptions are tagged ~dupkeys and not judged',
+                 "a description whose table denco.Build refuses (duplicate placeholder names, '#') is used half-built because the error is ignored "
+                 '(F01b, documented): tagged ~build-refused and not judged'],
+ 'go_entry': 'middleware.NewRouter over middleware.NewContext(spec, untyped API) — DefaultRouter, defaultRouter.Lookup/OtherMethods',
+ 'model_fn': 'dispatch (path.Join, template->key conversion, per-method C05 tables, path.Clean, decodeCompositParams on the escaped text, '
+             'PathUnescape of every value/fragment, 404/405)',
+ 'partial': ['composite segments ({a}-{b}, {id}.json, v{major}.{minor}): route AND values are judged per case by the composite-aware Spec '
+             '(specDispatchC: the values are the decoded texts of an instantiation, of THE instantiation where it is unique). Proved for all inputs: '
+             "the Spec's enumerator is exact (allInst_exact; mem_instAll for whole templates); what decodeCompositParams returns is an instantiation "
+             'whenever the captured text has one, and exactly the unique one where it is unique, decoded, by name, as called by Lookup '
+             '(composite_split_instantiates, composite_split_unique, composite_values_unique, composite_values_sepOnce); dispatch on templates with '
+             'composite segments (composite_ran_params, composite_ran_meets_spec: method, captured texts, and the values received are the decoded '
+             'texts of an instantiation of the whole template, for templates with plain static prefixes, distinct brace-free placeholder names and a '
+             'converted key the trie takes for parameterised). NOT proved for composite templates: the literal-over-parameter preference and the '
+             '404/405 clauses in terms of templates (CompositeRanStatement; they hold at the level of the trie key) - covered by the correspondence',
+             'simple templates (every segment static text or one whole-segment placeholder, no reserved router bytes in static text) are fully '
+             'proved (`simple_ran_params`, `allow_exact_templates`); templates outside that class are covered by the trie-level theorems and the '
+             "driver's Spec only"],
+ 'quick_n': 30000,
+ 'rule': 'generated swagger 2.0 descriptions (1-7 operations, 8-19 in a quarter of the thorough tables; templates of 1-4 segments over static '
+         'segments and {name} placeholders with shared prefixes and static/parameterised siblings; the same template under several methods; base '
+         "paths /, '', /api, /api/, /v1/base, /a; 1 description in 6 with ':'/'*' in static text and a few composite segments; 1 description in 3 "
+         'with composite segments in 3 of 10 segment positions: [prefix v|p_|id-|x.] {n0} sep {n1} [sep {n2}] [suffix .json|.xml|-x|!|:cancel|.|--] '
+         'with 1-3 placeholders, separators - . _ , -- .. -. __ : @ and, 1 in 12, none (adjacent placeholders); 1 template in 40 with a trailing '
+         'slash), requests parsed by net/http from a raw request line: instantiations with whole-segment values {1 42 kitty a%2Fb 50%25 %zz : * %23 '
+         "; a=b %C3%A9 . .. '' x.json a-b a--b mine a:b a+b +1 %2B ...}, fragment values of composite segments 3 in 5 free of every separator {1 42 "
+         'kitty abc x Z9 7 report pdf 0}, else containing a separator (a-b a--b a.b 1.2 x.json - . .. -- x- -x ...), escaping one (a%2Db %2D '
+         'a%2D%2Db a%2Eb %2E%2E a%5Fb a%2Cb %2Djson a%2Ejson a%3Ab %40) or empty; trailing/duplicate slashes, dot segments, random bytes, one '
+         "inserted or one dropped byte (a lost separator or suffix byte); methods in any letter case (the description's own methods 1 in 2, 3 in 4 "
+         'for composite descriptions). Non-trivial: a valid request against a description without duplicate converted keys; distinct = distinct '
+         'input lines. Composite tags: composite:ranN:unique|ambiguous|none = the number of instantiations of the chosen template by the cleaned '
+         'path (Spec: exactly the unique one / any / the handler must not run).',
+ 'search_s': 60,
+ 'thorough_n': 250000,
+ 'thorough_seeds': 4,
+ 'trusted_base': ['reading of the property text into the Lean `Spec` (human step, RtVerif/Model/<id>.lean)',
+                  'correspondence check (differential: Go harness /verif/harness -> protocol lines -> compiled Lean driver rtdriver evaluating Model '
+                  'and Spec); coverage bounded by the generators',
+                  "factgen (go/ast extraction of constants/tables into RtVerif/Gen/Facts.lean) and the driver's line parser",
+                  'net/http request-line parsing and URL.EscapedPath; go-openapi/analysis Operations(); regexp semantics of {(.+?)}([^/]*) '
+                  '(hand-transcribed scanner `convert`)',
+                  "denco's double array (see C05); path.Clean/Join via RtVerif/Base/GoPath.lean (validated by C20's stream G)"]}
+
 # properties not claimed (with the reason) and hook commits in /repo (none so far: no hooks needed)
 # built but not yet claimed (with the reason shown in MANIFEST.not_applicable)
 PENDING = {"C05DA"}   # C05DA is a sub-check of C05 ("also"), never claimed on its own
